@@ -19,7 +19,7 @@ fn monitors() -> Monitors {
 fn hist_cfg(n_ops: usize, lane: usize) -> HistCfg {
     HistCfg {
         n_ops,
-        gen: GenCfg { max_tables: 4, invalid_pct: 4, huge_strings: true, ddl_pct: 16, summary: false, ..Default::default() },
+        gen: GenCfg { max_tables: 4, invalid_pct: 4, huge_strings: true, ddl_pct: 16, summary: false, big_batch_one_in: 100, ..Default::default() },
         // lane 0: flush-and-snapshot after every op; lane 1: into_inner/drop + reopen at every position
         mon: if lane == 0 { monitors() } else { Monitors::default() },
         close_pass: if lane == 0 { None } else { Some(1) },
